@@ -69,3 +69,22 @@ Proof.
            do 3 f_equal. lia.
         -- destruct (tdur n <? 0) eqn:E5; [lia|]. rewrite (IH (t + tdur n) a b Hr Hab). cbn [obind]. do 3 f_equal. lia.
 Qed.
+
+(* the empty window [a, a) at or before the clock is the empty score (the library's None), and so is repeating until duration 0 *)
+Lemma score_between_empty_window : forall s t a, Forall (fun c => 0 <= rchord_dur c) s -> a <= t -> score_between s t a a = Some [].
+Proof.
+  induction s as [|c s IH]; intros t a H Ha; [reflexivity|].
+  inversion H as [|? ? Hc Hs]; subst. cbn [score_between]. cbv zeta.
+  destruct (t + rchord_dur c <=? a) eqn:E.
+  - apply IH; [exact Hs|lia].
+  - destruct (a <=? t) eqn:E2; [reflexivity|lia].
+Qed.
+
+Lemma score_dur_nonneg s : Forall (fun c => 0 <= rchord_dur c) s -> 0 <= score_dur s.
+Proof. induction 1 as [|c s Hc _ IH]; [unfold score_dur; cbn; lia|]. rewrite score_dur_cons. lia. Qed.
+
+Theorem repeat_until_zero s : Forall (fun c => 0 <= rchord_dur c) s -> repeat_until s 0 = Some [] /\ score_dur [] = 0.
+Proof.
+  intros H. split; [|reflexivity]. unfold repeat_until. pose proof (score_dur_nonneg s H).
+  destruct (score_dur s <? 0) eqn:E; [lia|]. apply score_between_empty_window; [exact H|lia].
+Qed.
